@@ -14,6 +14,7 @@ from __future__ import annotations
 TA = 'memref<?x?xi8, "L3">'
 TB = 'memref<?x?xi8, "L1">'
 TS = 'memref<?x?xi8, strided<[?, 1], offset: ?>, "L3">'
+TR = 'memref<?xi8, strided<[1], offset: ?>, "L3">'
 CONSTS = [0, 1, 2, 3, 4, 5, 7, 8]
 
 
@@ -25,6 +26,7 @@ def default_profile(rng):
         "const_bounds": rng.random() < (0.8 if fam != "reuse" else 0.3),
         "perfect": rng.random() < 0.5,  # perfect nests only (outside the MergeForLoops known finding)
         "allocs": fam in ("reuse", "both"),
+        "rank_reducing": rng.random() < 0.4,
     }
 
 
@@ -106,12 +108,17 @@ class LoopGen:
                     if x is not None and x.startswith("%d") and r.random() < 0.4:
                         self.tag += 1
                         out.append({"k": "op", "tag": self.tag, "args": [x]})
-                out.append({"k": "subview", "name": nm, "src": "%arg0", "off": off, "size": size})
+                rr = p.get("rank_reducing") and r.random() < 0.35
+                sv = {"k": "subview", "name": nm, "src": "%arg0", "off": off, "size": size}
+                if rr:
+                    sv["rr"] = True  # rank-reducing: sizes [1, n] -> a 1-D view whose dim 0 is n
+                out.append(sv)
+                ty = rr_type(sv) if rr else TS
                 if r.random() < 0.5:
                     self.tag += 1
-                    out.append({"k": "op", "tag": self.tag, "args": [nm], "bufarg": "view"})
+                    out.append({"k": "op", "tag": self.tag, "args": [nm], "bufarg": "view", "ty": ty})
                 d = self.fresh("d")
-                out.append({"k": "dim", "name": d, "src": nm, "idx": r.choice([0, 1]), "srcty": TS})
+                out.append({"k": "dim", "name": d, "src": nm, "idx": 0 if rr else r.choice([0, 1]), "srcty": ty})
                 b = self.fresh("b")
                 self.tag += 1
                 out.append({"k": "alloc", "name": b, "site": self.tag, "sizes": [d, r.choice(scope)]})
@@ -144,7 +151,7 @@ def emit(ast) -> str:
         for s in body:
             k = s["k"]
             if k == "op":
-                tys = ", ".join((TS if s.get("bufarg") == "view" else TB) if s.get("bufarg") else "index" for _ in s["args"])
+                tys = ", ".join((s.get("ty", TS) if s.get("bufarg") == "view" else TB) if s.get("bufarg") else "index" for _ in s["args"])
                 e(ind, f'"test.op"({", ".join(s["args"])}) {{vtag = {s["tag"]} : i64}} : ({tys}) -> ()')
             elif k == "calc":
                 e(ind, f'{s["name"]} = arith.{s["op"]} {s["a"]}, {s["b"]} : index')
@@ -157,7 +164,10 @@ def emit(ast) -> str:
             elif k == "subview":
                 sz = [x if x is not None else "4" for x in s["size"]]
                 of = [x if x is not None else "0" for x in s["off"]]
-                e(ind, f'{s["name"]} = memref.subview {s["src"]}[{of[0]}, {of[1]}] [{sz[0]}, {sz[1]}] [1, 1] : {TA} to {TS}')
+                if s.get("rr"):
+                    e(ind, f'{s["name"]} = memref.subview {s["src"]}[{of[0]}, {of[1]}] [1, {sz[1]}] [1, 1] : {TA} to {rr_type(s)}')
+                else:
+                    e(ind, f'{s["name"]} = memref.subview {s["src"]}[{of[0]}, {of[1]}] [{sz[0]}, {sz[1]}] [1, 1] : {TA} to {TS}')
             elif k == "for":
                 e(ind, f'scf.for {s["iv"]} = {s["lb"]} to {s["ub"]} step {s["step"]} {{')
                 stmts(ind + 1, s["body"])
@@ -216,6 +226,11 @@ def has_imperfect_const_nest(body):
     return False
 
 
+def rr_type(sv):
+    """result type of a rank-reducing subview: static when its size is"""
+    return TR if sv["size"][1] is not None else TR.replace("?xi8", "4xi8")
+
+
 def has_min_sized_subview_dim_alloc(body, mins=frozenset(), views=None, dims=None):
     """Trigger region of known finding KF-C17-2: alloc(.. dim(subview[.. affine.min ..]) ..)."""
     views = dict(views or {})
@@ -226,7 +241,7 @@ def has_min_sized_subview_dim_alloc(body, mins=frozenset(), views=None, dims=Non
         if k == "min":
             mins.add(s["name"])
         elif k == "subview":
-            views[s["name"]] = [x in mins for x in s["size"]]
+            views[s["name"]] = [x in mins for x in (s["size"][1:] if s.get("rr") else s["size"])]
         elif k == "dim" and s["src"] in views and views[s["src"]][s["idx"]]:
             dims.add(s["name"])
         elif k == "alloc" and any(x in dims for x in s["sizes"]):
